@@ -52,7 +52,7 @@ def build_manifest():
         'not_applicable': na,
         'notes': 'Known findings live in known_findings.json (never written at run time). ./check selftest-determinism and '
                  './check selftest-sensitivity are the self-tests described in DESIGN.md 2.5. seeded/ holds independently '
-                 'written breaking changes (four rounds, 187) and which check catches each (DESIGN.md 11.1). The C11 check '
+                 'written breaking changes (five rounds, 221) and which check catches each (DESIGN.md 11.1). The C11 check '
                  'additionally needs clang (ASan runtime) and valgrind, both pre-installed; fixes made to /repo are the '
                  'unguarded "fix:" commits listed as fixed in known_findings.json.',
     }
